@@ -64,7 +64,7 @@ class Stats:
     def part(self, name):
         return self.parts.setdefault(name, {"evaluations": 0})
 
-    def violation(self, case, msg, fingerprint=None, label=None):
+    def violation(self, case, msg, fingerprint=None, label=None, soft=False):
         """label groups violations for display; fingerprint identifies the specific failing
         input / call site (known-findings are matched on it, never on the property alone)."""
         self.n_violations += 1
@@ -78,6 +78,7 @@ class Stats:
                     "msg": msg,
                     "label": label,
                     "fingerprint": fingerprint or f"{label}|{h64(case):016x}",
+                    "soft": soft,
                 }
             )
 
@@ -415,6 +416,9 @@ def run_check(prop_id, tier="quick", seed=0, jobs=None):
                 flush=True,
             )
             return 2
+        if not r1 and v.get("soft"):
+            print(f"NOTE property={prop_id}: supplementary finding did not reproduce and is not reported: {v['msg'][:200]}", file=sys.stderr)
+            continue
         if not r1:
             print(
                 f"HARNESS-NONREPRODUCIBLE property={prop_id} msg={v['msg'][:300]} case={json.dumps(v['case'], default=repr)[:300]}",
